@@ -57,14 +57,14 @@ ReachNow == Reach(name, alias, relsd)
 
 \* ---- the calls observed during one operation: r \in ran is an entity id
 RECURSIVE RanOK(_, _, _, _)
-\* ran: remaining calls; arm: armed so far; rel: the entity released by this operation (0 if none);
+\* ran: remaining calls; arm: armed so far; rel: the set of entities released during this operation;
 \* R: entities reachable once the operation has changed the program's references
 RanOK(ran, arm, rel, R) ==
     IF ran = <<>> THEN TRUE
     ELSE LET r == Head(ran) IN
          /\ r \in Ids /\ HasDtor(kind[r])
          /\ arm[r] = "armed"                       \* AtMostOnce, NeverAfterNone
-         /\ (r = rel \/ r \notin R)                \* OnlyWhenDue
+         /\ (r \in rel \/ r \notin R)              \* OnlyWhenDue
          /\ RanOK(Tail(ran), [arm EXCEPT ![r] = "done"], rel, R)
 Disarm(ran) == [o \in Ids |-> IF \E i \in DOMAIN ran : ran[i] = o THEN "done" ELSE armed[o]]
 
@@ -84,9 +84,13 @@ AliasAfter(e) == CASE e.op = "alias" -> Upd(alias, e.o, TRUE)
                    [] e.op = "dropalias" -> Upd(alias, e.o, FALSE)
                    [] OTHER -> alias
 CycAfter(e)   == IF e.op = "cycle" THEN Upd(cyc, e.o, TRUE) ELSE cyc
-RelsdAfter(e) == IF e.op = "release" THEN Upd(relsd, e.o, TRUE) ELSE relsd
+\* e.nrel: the wrappers on which a destructor running during this operation called ffi.release()
+\* itself (re-entrancy: the program may release any wrapper it holds from inside a destructor,
+\* including the one being finalized); they are released by the program just like e.o of a release
+NRel(e) == {e.nrel[i] : i \in DOMAIN e.nrel}
+Rels(e) == (IF e.op = "release" THEN {e.o} ELSE {}) \cup NRel(e)
+RelsdAfter(e) == [o \in Ids |-> relsd[o] \/ o \in Rels(e)]
 ReachAfter(e) == Reach(NameAfter(e), AliasAfter(e), RelsdAfter(e))
-Rel(e) == IF e.op = "release" THEN e.o ELSE 0
 
 Pre(e) ==
     CASE e.op = "new" ->
@@ -106,7 +110,7 @@ Pre(e) ==
       [] e.op = "fromhandle"  -> Created(e.o) /\ kind[e.o] = "H" /\ name[e.o]
       [] OTHER -> FALSE
 
-Calls(e) == RanOK(e.ran, armed, Rel(e), ReachAfter(e))
+Calls(e) == RanOK(e.ran, armed, Rels(e), ReachAfter(e))
 \* the first offending call, for the verdict
 RECURSIVE CallsWhy(_, _, _, _)
 CallsWhy(ran, arm, rel, R) ==
@@ -115,7 +119,7 @@ CallsWhy(ran, arm, rel, R) ==
     IF ~(r \in Ids /\ HasDtor(kind[r])) THEN "UnknownCall"
     ELSE IF arm[r] = "done" THEN "AtMostOnce"
     ELSE IF arm[r] = "none" THEN "NeverAfterNone"
-    ELSE IF ~(r = rel \/ r \notin R) THEN "OnlyWhenDue"
+    ELSE IF ~(r \in rel \/ r \notin R) THEN "OnlyWhenDue"
     ELSE CallsWhy(Tail(ran), [arm EXCEPT ![r] = "done"], rel, R)
 
 Views(x) == {v \in Ids : kind[v] = "V" /\ tgt[v] = x /\ ~relsd[v]}
@@ -143,9 +147,13 @@ Post(e) ==
            IF e.obs # TRUE \/ e.exc # "" THEN "FromHandle" ELSE ""
       [] OTHER -> IF e.exc # "" THEN "Harness" ELSE ""
 
-Guard(e) == Pre(e) /\ Calls(e) /\ Post(e) = ""
-Why(e) == IF ~Pre(e) THEN "Harness"
-          ELSE IF ~Calls(e) THEN CallsWhy(e.ran, armed, Rel(e), ReachAfter(e))
+\* a nested release of an armed ffi.gc() wrapper runs its destructor, too (AtRelease)
+NestedOK(e) == \A x \in NRel(e) : (kind[x] = "W" /\ armed[x] = "armed") => \E i \in DOMAIN e.ran : e.ran[i] = x
+NestedPre(e) == \A x \in NRel(e) : x \in Ids /\ Created(x) /\ name[x] /\ Releasable(kind[x])
+Guard(e) == Pre(e) /\ NestedPre(e) /\ Calls(e) /\ NestedOK(e) /\ Post(e) = ""
+Why(e) == IF ~Pre(e) \/ ~NestedPre(e) THEN "Harness"
+          ELSE IF ~Calls(e) THEN CallsWhy(e.ran, armed, Rels(e), ReachAfter(e))
+          ELSE IF ~NestedOK(e) THEN "AtRelease"
           ELSE Post(e)
 
 Effect(e) ==
